@@ -112,6 +112,7 @@ Inductive wmsg :=
 Inductive exn :=
 | XProtocolError | XTransportLost | XTypeError | XAttributeError
 | XKeyError
+| XSerializationError | XPayloadExceeded      (* what ITransport.send() may raise besides TransportLost *)
 | XException          (* plain Exception: "subscription no longer active", "session already joined", ... *)
 | XNoObject.          (* harness-level: the Subscription/Registration object named by the op does not exist *)
 
@@ -180,6 +181,9 @@ Inductive op :=
 | ACancel (f : N)                         (* txaio.cancel(f) *)
 | ALeave (r : option reason)
 | ADisconnect
+| AFail (e : exn) (a : op)             (* the API call a (one of the six request calls) is made while the transport's
+                                          send() raises e for the request message (unserializable / oversized
+                                          payload, transport gone): nothing is sent, the session stays up *)
 | AReact (f : N) (o : op)              (* the user attaches a callback/errback to future f that, when it fires,
                                           issues the API call o (the retry idiom); o: call / publish / subscribe /
                                           register / unregister *)
@@ -244,69 +248,75 @@ Record sess := {
   done : list (N * result);      (* ghost ledger: futures that have a result, in completion order *)
   issued : list (N * (kind * N)); (* ghost ledger: future -> (kind, request id) it was created for *)
   lost : list N;                 (* ghost ledger: futures whose request record was dropped without completing them *)
-  reacts : list (N * op)         (* user code: future -> API call its callback/errback issues when it fires *)
+  reacts : list (N * op);        (* user code: future -> API call its callback/errback issues when it fires *)
+  failnext : option exn          (* transport: send() of the next request message raises this (set only inside AFail) *)
 }.
 
 Definition init : sess :=
   {| opened := false; transport := false; topen := false; sid := None; sdetails := None; goodbye_sent := false;
      next_id := IDGEN_START; pend := []; subs := []; regs := []; invs := []; queue := []; next_fut := 0;
-     done := []; issued := []; lost := []; reacts := [] |}.
+     done := []; issued := []; lost := []; reacts := []; failnext := None |}.
 
 (* field updates *)
 Definition set_conn (s : sess) (o t tp : bool) : sess :=
   {| opened := o; transport := t; topen := tp; sid := sid s; sdetails := sdetails s; goodbye_sent := goodbye_sent s;
      next_id := next_id s; pend := pend s; subs := subs s; regs := regs s; invs := invs s; queue := queue s;
-     next_fut := next_fut s; done := done s; issued := issued s; lost := lost s; reacts := reacts s |}.
+     next_fut := next_fut s; done := done s; issued := issued s; lost := lost s; reacts := reacts s; failnext := failnext s |}.
 Definition set_sid (s : sess) (v : option N) : sess :=
   {| opened := opened s; transport := transport s; topen := topen s; sid := v; sdetails := sdetails s;
      goodbye_sent := goodbye_sent s; next_id := next_id s; pend := pend s; subs := subs s; regs := regs s;
-     invs := invs s; queue := queue s; next_fut := next_fut s; done := done s; issued := issued s; lost := lost s; reacts := reacts s |}.
+     invs := invs s; queue := queue s; next_fut := next_fut s; done := done s; issued := issued s; lost := lost s; reacts := reacts s; failnext := failnext s |}.
 Definition set_sdetails (s : sess) (v : option N) : sess :=
   {| opened := opened s; transport := transport s; topen := topen s; sid := sid s; sdetails := v;
      goodbye_sent := goodbye_sent s; next_id := next_id s; pend := pend s; subs := subs s; regs := regs s;
-     invs := invs s; queue := queue s; next_fut := next_fut s; done := done s; issued := issued s; lost := lost s; reacts := reacts s |}.
+     invs := invs s; queue := queue s; next_fut := next_fut s; done := done s; issued := issued s; lost := lost s; reacts := reacts s; failnext := failnext s |}.
 Definition set_goodbye (s : sess) (v : bool) : sess :=
   {| opened := opened s; transport := transport s; topen := topen s; sid := sid s; sdetails := sdetails s;
      goodbye_sent := v; next_id := next_id s; pend := pend s; subs := subs s; regs := regs s;
-     invs := invs s; queue := queue s; next_fut := next_fut s; done := done s; issued := issued s; lost := lost s; reacts := reacts s |}.
+     invs := invs s; queue := queue s; next_fut := next_fut s; done := done s; issued := issued s; lost := lost s; reacts := reacts s; failnext := failnext s |}.
 Definition set_pend (s : sess) (v : list req) : sess :=
   {| opened := opened s; transport := transport s; topen := topen s; sid := sid s; sdetails := sdetails s;
      goodbye_sent := goodbye_sent s; next_id := next_id s; pend := v; subs := subs s; regs := regs s;
-     invs := invs s; queue := queue s; next_fut := next_fut s; done := done s; issued := issued s; lost := lost s; reacts := reacts s |}.
+     invs := invs s; queue := queue s; next_fut := next_fut s; done := done s; issued := issued s; lost := lost s; reacts := reacts s; failnext := failnext s |}.
 Definition set_subs (s : sess) (v : list (N * list N)) : sess :=
   {| opened := opened s; transport := transport s; topen := topen s; sid := sid s; sdetails := sdetails s;
      goodbye_sent := goodbye_sent s; next_id := next_id s; pend := pend s; subs := v; regs := regs s;
-     invs := invs s; queue := queue s; next_fut := next_fut s; done := done s; issued := issued s; lost := lost s; reacts := reacts s |}.
+     invs := invs s; queue := queue s; next_fut := next_fut s; done := done s; issued := issued s; lost := lost s; reacts := reacts s; failnext := failnext s |}.
 Definition set_regs (s : sess) (v : list (N * N)) : sess :=
   {| opened := opened s; transport := transport s; topen := topen s; sid := sid s; sdetails := sdetails s;
      goodbye_sent := goodbye_sent s; next_id := next_id s; pend := pend s; subs := subs s; regs := v;
-     invs := invs s; queue := queue s; next_fut := next_fut s; done := done s; issued := issued s; lost := lost s; reacts := reacts s |}.
+     invs := invs s; queue := queue s; next_fut := next_fut s; done := done s; issued := issued s; lost := lost s; reacts := reacts s; failnext := failnext s |}.
 Definition set_invs (s : sess) (v : list N) : sess :=
   {| opened := opened s; transport := transport s; topen := topen s; sid := sid s; sdetails := sdetails s;
      goodbye_sent := goodbye_sent s; next_id := next_id s; pend := pend s; subs := subs s; regs := regs s;
-     invs := v; queue := queue s; next_fut := next_fut s; done := done s; issued := issued s; lost := lost s; reacts := reacts s |}.
+     invs := v; queue := queue s; next_fut := next_fut s; done := done s; issued := issued s; lost := lost s; reacts := reacts s; failnext := failnext s |}.
 Definition set_queue (s : sess) (v : list thunk) : sess :=
   {| opened := opened s; transport := transport s; topen := topen s; sid := sid s; sdetails := sdetails s;
      goodbye_sent := goodbye_sent s; next_id := next_id s; pend := pend s; subs := subs s; regs := regs s;
-     invs := invs s; queue := v; next_fut := next_fut s; done := done s; issued := issued s; lost := lost s; reacts := reacts s |}.
+     invs := invs s; queue := v; next_fut := next_fut s; done := done s; issued := issued s; lost := lost s; reacts := reacts s; failnext := failnext s |}.
 Definition set_done (s : sess) (v : list (N * result)) : sess :=
   {| opened := opened s; transport := transport s; topen := topen s; sid := sid s; sdetails := sdetails s;
      goodbye_sent := goodbye_sent s; next_id := next_id s; pend := pend s; subs := subs s; regs := regs s;
-     invs := invs s; queue := queue s; next_fut := next_fut s; done := v; issued := issued s; lost := lost s; reacts := reacts s |}.
+     invs := invs s; queue := queue s; next_fut := next_fut s; done := v; issued := issued s; lost := lost s; reacts := reacts s; failnext := failnext s |}.
 (* a new request: next request id consumed, new future, recorded in the table and in the ghost ledgers *)
 Definition set_newreq (s : sess) (nid : N) (p : list req) (nf : N) (iss : list (N * (kind * N))) (lst : list N) : sess :=
   {| opened := opened s; transport := transport s; topen := topen s; sid := sid s; sdetails := sdetails s;
      goodbye_sent := goodbye_sent s; next_id := nid; pend := p; subs := subs s; regs := regs s;
-     invs := invs s; queue := queue s; next_fut := nf; done := done s; issued := iss; lost := lst; reacts := reacts s |}.
+     invs := invs s; queue := queue s; next_fut := nf; done := done s; issued := iss; lost := lst; reacts := reacts s; failnext := failnext s |}.
 Definition set_lost (s : sess) (v : list N) : sess :=
   {| opened := opened s; transport := transport s; topen := topen s; sid := sid s; sdetails := sdetails s;
      goodbye_sent := goodbye_sent s; next_id := next_id s; pend := pend s; subs := subs s; regs := regs s;
-     invs := invs s; queue := queue s; next_fut := next_fut s; done := done s; issued := issued s; lost := v; reacts := reacts s |}.
+     invs := invs s; queue := queue s; next_fut := next_fut s; done := done s; issued := issued s; lost := v; reacts := reacts s; failnext := failnext s |}.
 Definition set_reacts (s : sess) (v : list (N * op)) : sess :=
   {| opened := opened s; transport := transport s; topen := topen s; sid := sid s; sdetails := sdetails s;
      goodbye_sent := goodbye_sent s; next_id := next_id s; pend := pend s; subs := subs s; regs := regs s;
      invs := invs s; queue := queue s; next_fut := next_fut s; done := done s; issued := issued s; lost := lost s;
-     reacts := v |}.
+     reacts := v; failnext := failnext s |}.
+Definition set_failnext (s : sess) (v : option exn) : sess :=
+  {| opened := opened s; transport := transport s; topen := topen s; sid := sid s; sdetails := sdetails s;
+     goodbye_sent := goodbye_sent s; next_id := next_id s; pend := pend s; subs := subs s; regs := regs s;
+     invs := invs s; queue := queue s; next_fut := next_fut s; done := done s; issued := issued s; lost := lost s;
+     reacts := reacts s; failnext := v |}.
 Definition enqueue (s : sess) (t : thunk) : sess := set_queue s (queue s ++ [t]).
 
 (* Python truthiness of self._session_id  (`if self._session_id:` -- the id 0 is falsy) *)
@@ -346,7 +356,7 @@ Definition drop_request (s : sess) (k : kind) (id f : N) : sess :=
   {| opened := opened s; transport := transport s; topen := topen s; sid := sid s; sdetails := sdetails s;
      goodbye_sent := goodbye_sent s; next_id := next_id s; pend := remove_req k id (pend s); subs := subs s;
      regs := regs s; invs := invs s; queue := queue s; next_fut := next_fut s; done := done s;
-     issued := filter (fun e => negb (fst e =? f)) (issued s); lost := lost s; reacts := reacts s |}.
+     issued := filter (fun e => negb (fst e =? f)) (issued s); lost := lost s; reacts := reacts s; failnext := failnext s |}.
 
 
 (* ---- subscriptions / registrations ---- *)
@@ -373,6 +383,13 @@ Definition send (cfg : ucfg) (s : sess) (m : wmsg) : list out * bool :=
   if topen s then ([Sent m], true)
   else if t_lenient cfg && transport s then ([Dropped m], true)
   else ([SendFailed m], false).
+
+(* self._transport.send(m) for a REQUEST message: may additionally fail because the transport cannot take this
+   message (SerializationError, PayloadExceededError) or is gone (TransportLost) although the session is up *)
+Definition send_req (cfg : ucfg) (s : sess) (m : wmsg) : list out * bool :=
+  match failnext s with Some _ => ([SendFailed m], false) | None => send cfg s m end.
+(* the exception a failing send() raises *)
+Definition send_exn (s : sess) : exn := match failnext s with Some e => e | None => XTransportLost end.
 
 (* ---- the request API calls that need no object look-up through a completed future's callbacks ---- *)
 (* new request of kind k: ids and future allocated, request recorded (record-before-send) *)
@@ -416,9 +433,9 @@ Definition api_step (cfg : ucfg) (s : sess) (o : op) : sess * list out :=
         let '(s1, id, f) := new_request s KCall o uri in
         let m := MCall id uri a kw (match o with Some c => co_timeout c | None => None end)
                        (match o with Some c => co_progress c | None => false end) in
-        let '(o1, ok) := send cfg s1 m in
+        let '(o1, ok) := send_req cfg s1 m in
         if ok then (s1, o1 ++ [ApiReturned (Some f)])
-        else (drop_request s1 KCall id f, o1 ++ [ApiRaised XTransportLost])
+        else (drop_request s1 KCall id f, o1 ++ [ApiRaised (send_exn s1)])
   | APublish uri a kw o =>
       if negb (transport s) then (s, [ApiRaised XTransportLost])
       else
@@ -426,28 +443,28 @@ Definition api_step (cfg : ucfg) (s : sess) (o : op) : sess * list out :=
         let excl := match o with Some p => po_exclude_me p | None => None end in
         if po_wants_ack o then
           let '(s1, id, f) := new_request s KPublish None uri in
-          let '(o1, ok) := send cfg s1 (MPublish id uri a kw ack excl) in
+          let '(o1, ok) := send_req cfg s1 (MPublish id uri a kw ack excl) in
           if ok then (s1, o1 ++ [ApiReturned (Some f)])
-          else (drop_request s1 KPublish id f, o1 ++ [ApiRaised XTransportLost])
+          else (drop_request s1 KPublish id f, o1 ++ [ApiRaised (send_exn s1)])
         else
           let '(s1, id) := new_id_only s in
-          let '(o1, ok) := send cfg s1 (MPublish id uri a kw ack excl) in
-          (s1, o1 ++ [if ok then ApiReturned None else ApiRaised XTransportLost])
+          let '(o1, ok) := send_req cfg s1 (MPublish id uri a kw ack excl) in
+          (s1, o1 ++ [if ok then ApiReturned None else ApiRaised (send_exn s1)])
   | ASubscribe uri o =>
       (* subscribe(): guard; _subscribe: id; SubscribeRequest recorded; send (a failing send leaves the record) *)
       if negb (transport s) then (s, [ApiRaised XTransportLost])
       else
         let '(s1, id, f) := new_request s KSubscribe None uri in
-        let '(o1, ok) := send cfg s1 (MSubscribe id uri (match o with Some c => opt_default (so_match c) | None => 0 end)
+        let '(o1, ok) := send_req cfg s1 (MSubscribe id uri (match o with Some c => opt_default (so_match c) | None => 0 end)
                                                  (match o with Some c => so_get_retained c | None => None end)) in
-        (s1, o1 ++ [if ok then ApiReturned (Some f) else ApiRaised XTransportLost])
+        (s1, o1 ++ [if ok then ApiReturned (Some f) else ApiRaised (send_exn s1)])
   | ARegister uri o =>
       if negb (transport s) then (s, [ApiRaised XTransportLost])
       else
         let '(s1, id, f) := new_request s KRegister None uri in
-        let '(o1, ok) := send cfg s1 (MRegister id uri (match o with Some c => opt_default (ro_match c) | None => 0 end)
+        let '(o1, ok) := send_req cfg s1 (MRegister id uri (match o with Some c => opt_default (ro_match c) | None => 0 end)
                                                 (match o with Some c => opt_default (ro_invoke c) | None => 0 end)) in
-        (s1, o1 ++ [if ok then ApiReturned (Some f) else ApiRaised XTransportLost])
+        (s1, o1 ++ [if ok then ApiReturned (Some f) else ApiRaised (send_exn s1)])
   | AUnregister h =>
       match reg_id_of s h with
       | None => (s, [ApiRaised XNoObject])
@@ -459,8 +476,8 @@ Definition api_step (cfg : ucfg) (s : sess) (o : op) : sess * list out :=
               else if negb (transport s) then (s, [ApiRaised XTransportLost])
               else
                 let '(s1, id, f) := new_request s KUnregister None regid in
-                let '(o1, ok) := send cfg s1 (MUnregister id regid) in
-                (s1, o1 ++ [if ok then ApiReturned (Some f) else ApiRaised XTransportLost])
+                let '(o1, ok) := send_req cfg s1 (MUnregister id regid) in
+                (s1, o1 ++ [if ok then ApiReturned (Some f) else ApiRaised (send_exn s1)])
           end
       end
   | _ => (s, [])
@@ -764,12 +781,45 @@ Fixpoint run_queue (fl : flavour) (cfg : ucfg) (s : sess) (q : list thunk) : ses
               let '(s2, o2) := run_queue fl cfg s1 r in (s2, o1 ++ o2)
   end.
 
+Definition is_fail_op (o : op) : bool :=
+  match o with
+  | ACall _ _ _ _ | APublish _ _ _ _ | ASubscribe _ _ | ARegister _ _ | AUnsubscribe _ | AUnregister _ => true
+  | _ => false
+  end.
+
+(* request.py Subscription.unsubscribe -> protocol.py _unsubscribe *)
+Definition unsub_step (fl : flavour) (cfg : ucfg) (s : sess) (h : N) : sess * list out :=
+      match sub_id_of s h with
+      | None => (s, [ApiRaised XNoObject])
+      | Some subid =>
+          let cur := match assoc subid (subs s) with Some l => l | None => [] end in
+          if negb (memN h cur) then (s, [ApiRaised XException])        (* "subscription no longer active" *)
+          else if negb (transport s) then (s, [ApiRaised XTransportLost])
+          else
+            let rest := remove1 h cur in
+            let s0 := set_subs s (assoc_set subid rest (subs s)) in
+            match rest with
+            | [] =>
+                let '(s1, id, f) := new_request s0 KUnsubscribe None subid in
+                let '(o1, ok) := send_req cfg s1 (MUnsubscribe id subid) in
+                (s1, o1 ++ [if ok then ApiReturned (Some f) else ApiRaised (send_exn s1)])
+            | _ :: _ =>
+                (* txaio.create_future_success(scount): a future that already has its result *)
+                let f := next_fut s0 in
+                let s1 := set_newreq s0 (next_id s0) (pend s0) (f + 1) (issued s0) (lost s0) in
+                let '(s2, o2) := complete fl cfg s1 f (ROk (VCount (N.of_nat (length rest)))) in
+                (s2, ApiReturned (Some f) :: o2)
+            end
+      end.
+
 Definition step (fl : flavour) (cfg : ucfg) (s : sess) (o : op) : sess * list out :=
   match o with
   | OOpen =>
-      (* protocol.py onOpen: self._transport = transport; fire 'connect'; onConnect.  A session object is given
-         one transport (ApplicationSessionFactory / Component create a session per connection) *)
-      if opened s then (s, []) else defer fl cfg (set_conn s true true true) TConnect
+      (* protocol.py onOpen: self._transport = transport; fire 'connect'; onConnect.  A session object may be given
+         a transport again after it lost the previous one (WampWebSocket*/WampRawSocket* factories wrap a session
+         instance as `lambda: session`): a history is a sequence of lives of one object; everything that is not
+         reset explicitly -- here or in join() -- carries over *)
+      if transport s then (s, []) else defer fl cfg (set_conn s true true true) TConnect
   | OLost _ =>
       (* protocol.py onClose.  Transports call it once (they drop their session reference) *)
       if negb (transport s) then (s, [])
@@ -790,30 +840,7 @@ Definition step (fl : flavour) (cfg : ucfg) (s : sess) (o : op) : sess * list ou
       | Aio => run_queue fl cfg (set_queue s []) (queue s)
       end
   | ACall _ _ _ _ | APublish _ _ _ _ | ASubscribe _ _ | ARegister _ _ | AUnregister _ => api_step cfg s o
-  | AUnsubscribe h =>
-      (* request.py Subscription.unsubscribe -> protocol.py _unsubscribe *)
-      match sub_id_of s h with
-      | None => (s, [ApiRaised XNoObject])
-      | Some subid =>
-          let cur := match assoc subid (subs s) with Some l => l | None => [] end in
-          if negb (memN h cur) then (s, [ApiRaised XException])        (* "subscription no longer active" *)
-          else if negb (transport s) then (s, [ApiRaised XTransportLost])
-          else
-            let rest := remove1 h cur in
-            let s0 := set_subs s (assoc_set subid rest (subs s)) in
-            match rest with
-            | [] =>
-                let '(s1, id, f) := new_request s0 KUnsubscribe None subid in
-                let '(o1, ok) := send cfg s1 (MUnsubscribe id subid) in
-                (s1, o1 ++ [if ok then ApiReturned (Some f) else ApiRaised XTransportLost])
-            | _ :: _ =>
-                (* txaio.create_future_success(scount): a future that already has its result *)
-                let f := next_fut s0 in
-                let s1 := set_newreq s0 (next_id s0) (pend s0) (f + 1) (issued s0) (lost s0) in
-                let '(s2, o2) := complete fl cfg s1 f (ROk (VCount (N.of_nat (length rest)))) in
-                (s2, ApiReturned (Some f) :: o2)
-            end
-      end
+  | AUnsubscribe h => unsub_step fl cfg s h
   | ACancel f =>
       (* txaio.cancel(f) on a future returned by an API call.  Only call() installs a canceller. *)
       if is_done s f then (s, [ApiReturned None])
@@ -848,6 +875,12 @@ Definition step (fl : flavour) (cfg : ucfg) (s : sess) (o : op) : sess * list ou
       else
         let '(o1, ok) := send cfg s (MGoodbye (match r with Some x => x | None => RsNormal end)) in
         if ok then (set_goodbye s true, o1 ++ [ApiReturned None]) else (s, o1 ++ [ApiRaised XTransportLost])
+  | AFail e a =>
+      if is_fail_op a then
+        let s0 := set_failnext s (Some e) in
+        let '(s1, o1) := match a with AUnsubscribe h => unsub_step fl cfg s0 h | _ => api_step cfg s0 a end in
+        (set_failnext s1 None, o1)
+      else (s, [])
   | AReact f o' =>
       (* user code: txaio.add_callbacks(f, cb, cb) with cb = lambda _: session.<api>(...) on a future that has no
          result yet and no such callback so far *)
